@@ -20,7 +20,7 @@ run bit-for-bit against the real event-loop arms by component `sys`) and then di
   cumulative-ACK high-water mark, `in_flight_packets = packet_log.len()`), window in `[1000, 60000]`,
   `in_flight ≥ 0`, and every queued sequence number is a 31-bit SRT data number.
   `SysInv_fresh` (links as built by `SrtlaConnection::new_registering`), `SysInv_step` (EVERY event
-  constructor: client, uplink, flush, hk, setCfg, crit, failNext), `SysInv_run`; exported as
+  constructor: client, uplink, flush, hk, setCfg, crit, failNext, failBind, stamp), `SysInv_run`; exported as
   `C02_inv_sys` and `C06_range_sys`.  Any `Scalar` instance — `Float` included.
 * `QualInv s` — the cached quality multiplier of every link is in `[0.35, 1.1·1.03]`: `QualInv_step`,
   `QualInv_run` for the scalar code read in an ordered field under `ExpLaw e` (exact arithmetic; IEEE
@@ -43,9 +43,13 @@ In particular the window range is preserved by `Cong.recover` / `perform_window_
 `clear_pre_registration_state` (REG3) and the reconnect / recovery resets as they occur in the shell —
 the conjuncts the one-step tie `C06_ops_are_conn_ops` does not have.
 
+The classifier / link-CC verdict stamps after housekeeping (`conn.weak`, `conn.loss_degraded`,
+`conn.cc_backing_off`, `conn.cc_target_bps`) ARE an event of `Sys.step` (`Ev.stamp`, verdicts as inputs of
+the event): every run-level theorem here quantifies over runs with arbitrary verdict stamps between any
+two other events.  `stamp_only_touches_verdicts` (§1) is the frame of that event, field by field.
+
 What is NOT covered: operations that are not events of `Sys.step` (config reload's
-`apply_connection_changes` adds/removes links — C19; the classifier / link-CC stamps after
-housekeeping write `weak`, `cc_*`, `loss_degraded` only, which none of the invariants read).
+`apply_connection_changes` adds/removes links — C19).
 -/
 set_option linter.unusedSectionVars false
 
@@ -106,6 +110,65 @@ theorem SysInv_step (s : Sys F) (e : Ev) (h : SysInv s) : SysInv (step s e).1 :=
 theorem SysInv_run (s : Sys F) (evs : List Ev) (h : SysInv s) : SysInv (run s evs).1 := by
   rw [sysInv_iff] at h ⊢
   exact run_all linkInv_closed s evs h
+
+/-- **The frame of a verdict stamp** (`Ev.stamp idx weak ld ccb cct`: the stamping loop of the housekeeping arm
+in `src/sender/mod.rs` for the connection at index `idx`, the classifier's / controller's verdicts being
+inputs of the event).  The event produces no output; it changes nothing of the shell but the link list —
+registration manager, NAK-attribution ring, `last_selected`, client address flag, configuration, critical
+window, all-failed stamp and both fault-injection lists are what they were —; the list keeps its length;
+every link other than `idx` is untouched; and link `idx` differs from its old record in the FOUR verdict
+fields only — every other field (the whole accounting core: window, packet log, in-flight, congestion
+state, phase, liveness stamps; keepalive stamp; the guard's private fields; timeout copy; RTT tracker;
+bitrate; reconnection state; quality cache; batch queue and regime) is equal.  An index that names no link
+changes nothing at all. -/
+theorem stamp_only_touches_verdicts (s : Sys F) (idx : Nat) (weak ld ccb : Bool) (cct : Nat) :
+    (step s (.stamp idx weak ld ccb cct)).2.wire = [] ∧ (step s (.stamp idx weak ld ccb cct)).2.client = [] ∧
+    (step s (.stamp idx weak ld ccb cct)).2.hkErr = false ∧
+    (step s (.stamp idx weak ld ccb cct)).1.reg = s.reg ∧ (step s (.stamp idx weak ld ccb cct)).1.trk = s.trk ∧
+    (step s (.stamp idx weak ld ccb cct)).1.lastSelected = s.lastSelected ∧
+    (step s (.stamp idx weak ld ccb cct)).1.clientKnown = s.clientKnown ∧
+    (step s (.stamp idx weak ld ccb cct)).1.cfg = s.cfg ∧
+    (step s (.stamp idx weak ld ccb cct)).1.critDeadline = s.critDeadline ∧
+    (step s (.stamp idx weak ld ccb cct)).1.allFailedAt = s.allFailedAt ∧
+    (step s (.stamp idx weak ld ccb cct)).1.failNext = s.failNext ∧
+    (step s (.stamp idx weak ld ccb cct)).1.failBind = s.failBind ∧
+    (step s (.stamp idx weak ld ccb cct)).1.links.length = s.links.length ∧
+    (s.links.length ≤ idx → (step s (.stamp idx weak ld ccb cct)).1.links = s.links) ∧
+    ∀ (j : Nat) (l : FLink F), s.links[j]? = some l →
+      ∃ l', (step s (.stamp idx weak ld ccb cct)).1.links[j]? = some l' ∧
+        (j ≠ idx → l' = l) ∧
+        (j = idx → l'.weak = weak ∧ l'.lossDegraded = ld ∧ l'.ccBackingOff = ccb ∧ l'.ccTarget = cct) ∧
+        l'.core = l.core ∧ l'.lastKeepaliveSent = l.lastKeepaliveSent ∧ l'.stallGated = l.stallGated ∧
+        l'.latchedSince = l.latchedSince ∧ l'.recoverySince = l.recoverySince ∧ l'.gateEvents = l.gateEvents ∧
+        l'.probeCounter = l.probeCounter ∧ l'.silencePulled = l.silencePulled ∧ l'.pullMark = l.pullMark ∧
+        l'.silencePulls = l.silencePulls ∧ l'.connTimeoutMs = l.connTimeoutMs ∧ l'.rtt = l.rtt ∧
+        l'.bitrate = l.bitrate ∧ l'.lastAttemptMs = l.lastAttemptMs ∧ l'.failCount = l.failCount ∧
+        l'.established = l.established ∧ l'.graceDeadline = l.graceDeadline ∧ l'.qualMult = l.qualMult ∧
+        l'.qualAt = l.qualAt ∧ l'.queue = l.queue ∧ l'.lastFlushMs = l.lastFlushMs ∧ l'.regime = l.regime := by
+  refine ⟨rfl, rfl, rfl, rfl, rfl, rfl, rfl, rfl, rfl, rfl, rfl, rfl, Hk.stampLink_length _ _ _ _ _ _, ?_, ?_⟩
+  · intro hlen
+    show stampLink s.links idx weak ld ccb cct = s.links
+    apply List.ext_getElem?
+    intro j
+    rw [Hk.stampLink_get]
+    cases hj : s.links[j]? with
+    | none => rfl
+    | some l =>
+      have hlt : j < s.links.length := (List.getElem?_eq_some_iff.1 hj).1
+      simp only [Option.map_some, Hk.stampOne]
+      rw [if_neg (by omega)]
+  · intro j l hl
+    refine ⟨Hk.stampOne idx weak ld ccb cct j l, ?_, ?_⟩
+    · show (stampLink s.links idx weak ld ccb cct)[j]? = _
+      rw [Hk.stampLink_get, hl]; rfl
+    · unfold Hk.stampOne
+      split
+      · rename_i hj
+        exact ⟨fun h => absurd hj h, fun _ => ⟨rfl, rfl, rfl, rfl⟩, rfl, rfl, rfl, rfl, rfl, rfl, rfl, rfl, rfl,
+          rfl, rfl, rfl, rfl, rfl, rfl, rfl, rfl, rfl, rfl, rfl, rfl, rfl⟩
+      · rename_i hj
+        exact ⟨fun _ => rfl, fun h => absurd h hj, rfl, rfl, rfl, rfl, rfl, rfl, rfl, rfl, rfl,
+          rfl, rfl, rfl, rfl, rfl, rfl, rfl, rfl, rfl, rfl, rfl, rfl, rfl⟩
 
 /-- **C02 at shell level**: along every run of the shell from an invariant state — in particular
 from the initial state — every link's packet log has no duplicate sequence numbers, every logged
@@ -261,7 +324,9 @@ theorem C03_in_domain_from_init (he : ExpLaw e) (n now : Nat) (reg : Reg.Reg) (e
 
 /-- **C03 along runs: no blackout, without a domain hypothesis.**  In every state reached from an
 invariant state, for every `last`, `now` and configuration: if some link is usable w.r.t. the
-configured timeout, `select_connection_idx` on the shell's links returns an index. -/
+configured timeout, `select_connection_idx` on the shell's links returns an index.  Runs include
+arbitrary verdict stamps (`Ev.stamp`: any `weak` / `loss_degraded` / `cc_backing_off` / `cc_target_bps` on
+any link, between any two other events), so the reached states range over all verdict assignments. -/
 theorem C03_no_blackout_run (he : ExpLaw e) (s : Sys K) (evs : List Ev) (h : SysInv s) (hq : QualInv s)
     (last : Option Nat) (now : Nat) (cfg : Select.Cfg)
     (hu : ∃ l ∈ (@run K 𝕊 s evs).1.links, C03.UsableCfg (@FLink.toSLink K 𝕊 l) cfg now) :
@@ -276,7 +341,8 @@ theorem C03_no_blackout_run (he : ExpLaw e) (s : Sys K) (evs : List Ev) (h : Sys
 /-- **C01 along runs: no drop while a usable link exists, without a domain hypothesis.**  In every
 state reached from an invariant state: registered session, some link usable w.r.t. the configured
 timeout ⇒ the routing decision for a client datagram is not `none` (then
-`C01_no_drop_when_selectable` says where the datagram goes). -/
+`C01_no_drop_when_selectable` says where the datagram goes).  Runs include arbitrary verdict stamps
+(`Ev.stamp`) between any two other events: whatever the classifier / link-CC controller said. -/
 theorem C01_no_drop_when_usable_run (he : ExpLaw e) (s : Sys K) (evs : List Ev) (h : SysInv s) (hq : QualInv s)
     (pkt : Bytes) (now : Nat)
     (hreg : (@run K 𝕊 s evs).1.reg.hasConnected = true)
@@ -303,7 +369,9 @@ theorem C01_no_drop_when_usable_from_init (he : ExpLaw e) (n t0 : Nat) (reg : Re
     (fun l hl => (C03_in_domain_from_init e ninf he n t0 reg evs l hl).1) hu
 
 /-- **C11 along runs: the scheduler leaves `last` only for a 10 % better link**, without a domain
-hypothesis (`C11_leave_only_if_select` on the shell's links in a reached state). -/
+hypothesis (`C11_leave_only_if_select` on the shell's links in a reached state).  Runs include arbitrary
+verdict stamps (`Ev.stamp`) between any two other events, so the scores compared are those under ANY
+weak / loss-degraded / CC-target verdicts the stamping loop may have written. -/
 theorem C11_leave_only_if_run (he : ExpLaw e) (s : Sys K) (evs : List Ev) (h : SysInv s) (hq : QualInv s)
     (l : Nat) (now : Nat) (cfg : Select.Cfg) (hmode : cfg.classic = false)
     (hne : (@selectIdx K 𝕊 ((@run K 𝕊 s evs).1.links.map (@FLink.toSLink K 𝕊)) (some l) now cfg).2 ≠ some l) :
@@ -478,6 +546,44 @@ example : (@selectIdx ℚ ratScalar ((@run ℚ ratScalar exSysQ []).1.links.map 
   refine ⟨exLinkQ, by simp [Srtla.Sys.run, exSysQ], ?_⟩
   unfold C03.UsableCfg C03.Usable
   decide
+
+/-- … and with verdict stamps in the run: link 0 stamped weak, loss-degraded, backing off with a 1 bit/s
+CC target, link 1 stamped weak too — the usable link 0 is still there (its accounting core is untouched,
+`stamp_only_touches_verdicts`), so `C03_no_blackout_run` still yields an index. -/
+example : (@selectIdx ℚ ratScalar ((@run ℚ ratScalar exSysQ
+      [.stamp 0 true true true 1, .stamp 1 true false false 0]).1.links.map (@FLink.toSLink ℚ ratScalar))
+    (some 1) 5000 {}).2 ≠ none := by
+  apply C03_no_blackout_run _ _ expLaw_rat exSysQ _ exSysQ_inv exSysQ_qual
+  refine ⟨{ exLinkQ with weak := true, lossDegraded := true, ccBackingOff := true, ccTarget := 1 }, ?_, ?_⟩
+  · simp [Srtla.Sys.run, Srtla.Sys.step, stampLink, exSysQ]
+  · unfold C03.UsableCfg C03.Usable
+    decide
+
+/-- The frame of a verdict stamp on the toy state: the four verdict fields of link 0 are written (a second
+stamp names a link that does not exist: nothing happens); windows, in-flight counts, logs and queues of both
+links are what they were; no output. -/
+example :
+    ((@run Int fixScalar exSys [.stamp 0 true true true 100000, .stamp 5 true false true 7]).1.links.map fun l =>
+      (l.weak, l.lossDegraded, l.ccBackingOff, l.ccTarget)) =
+      [(true, true, true, 100000), (false, false, false, 0)] ∧
+    ((@run Int fixScalar exSys [.stamp 0 true true true 100000, .stamp 5 true false true 7]).1.links.map fun l =>
+      (l.core.window, l.core.inFlight, l.core.keys, l.queue.length)) = [(1050, 2, [5, 7], 1), (20000, 0, [], 0)] ∧
+    ((@run Int fixScalar exSys [.stamp 0 true true true 100000, .stamp 5 true false true 7]).2.all fun o =>
+      o.wire.isEmpty && o.client.isEmpty && !o.hkErr) = true :=
+  ⟨by decide +kernel, by decide +kernel, by decide +kernel⟩
+
+/-- `stamp_only_touches_verdicts` instantiated: link 0 of `exSys` after a stamp has the stamped verdicts and
+its old accounting core and batch queue; link 1 is the very same record. -/
+example :
+    (∃ l', (@step Int fixScalar exSys (.stamp 0 true false true 250000)).1.links[0]? = some l' ∧
+      l'.weak = true ∧ l'.ccTarget = 250000 ∧ l'.core = exLink.core ∧ l'.queue = exLink.queue) ∧
+    (@step Int fixScalar exSys (.stamp 0 true false true 250000)).1.links[1]? =
+      some (@FLink.newRegistering Int fixScalar 2 0) := by
+  have h := (@stamp_only_touches_verdicts Int fixScalar exSys 0 true false true 250000).2.2.2.2.2.2.2.2.2.2.2.2.2.2
+  obtain ⟨l0, h0, -, hv, hcore, hrest⟩ := h 0 exLink rfl
+  obtain ⟨l1, h1, hsame, -⟩ := h 1 (@FLink.newRegistering Int fixScalar 2 0) rfl
+  refine ⟨⟨l0, h0, (hv rfl).1, (hv rfl).2.2.2, hcore, ?_⟩, by rw [h1, hsame (by decide)]⟩
+  exact hrest.2.2.2.2.2.2.2.2.2.2.2.2.2.2.2.2.2.2.1
 
 end examples
 
